@@ -173,6 +173,8 @@ def repr_params(p):
         elif hasattr(v, "name") and not isinstance(v, (str, int, float)):
             parts.append(f"{f.name}=@{v.name}")
         else:
+            if isinstance(v, float) and v == 0:
+                v = 0.0  # equal parameters must render equally: -0.0 == 0.0
             parts.append(f"{f.name}={v!r}")
     return ";".join(parts)
 
